@@ -547,3 +547,59 @@ func c09Execute(c *Ctx, plan []c09Planned) {
 func init() {
 	register("c09", c09Produce)
 }
+
+// ---- corpus: theorem Examples, witnesses of the repaired defects, the known finding ---------------
+// `harness -prop c09corpus` prints them; corpus/C09/*.case are those lines (re-run on every check).
+func c09Corpus(c *Ctx) {
+	var plan []c09Planned
+	add := func(class string, j c09Job, e c09Expect) {
+		plan = append(plan, c09Planned{job: j, expect: e, class: class})
+	}
+	idAB := mkCid(1, 0x55, mh.IDENTITY, -1, []byte("ab"))
+	idC := mkCid(1, 0x71, mh.IDENTITY, -1, []byte("c"))
+	exBlks := []Blk{{idAB, []byte("ab")}, {idC, []byte("c")}}
+	exFile := refPayload([]cid.Cid{idAB}, exBlks) // = TotalMain.c09_file: header 27 bytes, sections 8 and 6
+	hdrOnly := refPayload([]cid.Cid{idAB}, nil)
+	def := c09DefaultRow
+	// proofs/TotalMain.v c09_ex_exact / c09_ex_over_h / c09_ex_over_s
+	add("example:exact", c09Job{Entry: c09EBr, MaxH: 27, MaxS: 8, In: exFile}, c09Expect{kind: "exact"})
+	add("example:over-h", c09Job{Entry: c09EBr, MaxH: 26, MaxS: 8, In: exFile}, c09Expect{"over", "hdr2big"})
+	add("example:over-s", c09Job{Entry: c09EBr, MaxH: 27, MaxS: 7, In: exFile}, c09Expect{"over", "sec2big"})
+	// c09_ex_hostile_section
+	add("example:hostile-section", c09Job{Entry: c09EBr, MaxH: def.maxH, MaxS: def.maxS,
+		In: append(append([]byte(nil), hdrOnly...), c09PutUvarint(1<<62)...)}, c09Expect{kind: "none"})
+	add("example:hostile-header", c09Job{Entry: c09EBr, MaxH: def.maxH, MaxS: def.maxS, In: c09PutUvarint(1 << 31)}, c09Expect{kind: "none"})
+	// c09_ex_index
+	ixHead := func(dlen uint64) []byte {
+		b := []byte{0x80, 0x08}
+		b = append(b, c09LE(4, 1)...)
+		b = append(b, c09LE(4, 9)...)
+		return append(b, c09LE(8, dlen)...)
+	}
+	add("example:index-declares-2^40", c09Job{Entry: c09EIdxRead, MaxH: def.maxH, MaxS: def.maxS, In: append(ixHead(1<<40), 1, 2, 3)}, c09Expect{kind: "none"})
+	add("example:index-wellformed", c09Job{Entry: c09EIdxRead, MaxH: def.maxH, MaxS: def.maxS, In: append(ixHead(9), make([]byte, 9)...)}, c09Expect{kind: "none"})
+	// the 18-byte witness of the index pre-allocation defect (TotalIndex.idx_prealloc_witness), and 2^31
+	add("witness:index-prealloc-18-bytes", c09Job{Entry: c09EIdxRead, MaxH: def.maxH, MaxS: def.maxS,
+		In: []byte{0x80, 0x08, 1, 0, 0, 0, 8, 0, 0, 0, 0xff, 0xff, 0xff, 0xff, 0xff, 0xff, 0xff, 0x7f}}, c09Expect{kind: "none"})
+	add("witness:index-prealloc-2GiB", c09Job{Entry: c09EIdxRead, MaxH: def.maxH, MaxS: def.maxS, In: append(ixHead(1<<31), 7)}, c09Expect{kind: "none"})
+	// SkipNext on a BlockReader over Reader.DataReader() of a CARv1 (offsetReadSeeker.Seek(SeekEnd))
+	add("witness:skipnext-on-datareader-v1", c09Job{Entry: c09EBrSkip, MaxH: def.maxH, MaxS: def.maxS, Flavour: 2, Choice: []byte{1}, In: exFile}, c09Expect{kind: "none"})
+	// StorageCar.Get of a section over MaxAllowedSectionSize
+	add("witness:storage-get-over-limit", c09Job{Entry: c09EStorage, MaxH: 27, MaxS: 7, In: exFile,
+		Keys: [][]byte{idAB.Bytes(), idC.Bytes()}}, c09Expect{kind: "none"})
+	shaData := []byte("0123456789")
+	sha := Blk{mkCid(1, 0x55, mh.SHA2_256, -1, shaData), shaData}
+	shaFile := refPayload([]cid.Cid{sha.Cid}, []Blk{sha})
+	hl, _ := binary.Uvarint(shaFile)
+	add("witness:storage-get-over-limit", c09Job{Entry: c09EStorage, MaxH: hl, MaxS: uint64(sha.Cid.ByteLen()+len(shaData)) - 1, In: shaFile,
+		Keys: [][]byte{sha.Cid.Bytes()}}, c09Expect{"over", "sec2big"})
+	// known finding: a section limit above the runtime's maximum allocation (TotalMain.huge_limit_file)
+	noRoots := refPayload(nil, nil)
+	add("known:limit-above-runtime-max", c09Job{Entry: c09EBr, MaxH: 32 << 20, MaxS: 1 << 62, Trusted: true,
+		In: append(append([]byte(nil), noRoots...), 0xff, 0xff, 0xff, 0xff, 0xff, 0xff, 0xff, 0xff, 0x1f)}, c09Expect{kind: "none"})
+	c09Execute(c, plan)
+}
+
+func init() {
+	register("c09corpus", c09Corpus)
+}
